@@ -910,9 +910,12 @@ class LinearOperator(object):
         # potentially perform decomposition in double precision for numerical stability
         dtype = self.dtype
         evals, evecs = torch.linalg.eigh(self.to_dense().to(dtype=settings._linalg_dtype_symeig.value()))
-        # chop any negative eigenvalues.
+        # chop any negative eigenvalues (for a PSD matrix: rounding noise around a zero eigenvalue).
+        # The chopped VALUE is returned, but the gradient passes straight through: a zero eigenvalue that eigh happens
+        # to return as -1e-17 is still an eigenvalue of the matrix, and cutting its gradient (clamp_min / where) makes
+        # the derivative of every closed form built on these eigenvalues wrong for singular matrices.
         # TODO: warn if evals are significantly negative
-        evals = torch.where(evals < 0, torch.zeros_like(evals), evals).to(dtype=dtype)
+        evals = (evals + (evals.clamp_min(0.0) - evals).detach()).to(dtype=dtype)
         if eigenvectors:
             evecs = DenseLinearOperator(evecs.to(dtype=dtype))
         else:
